@@ -5,7 +5,8 @@ field of self, that function is called only from `get`, libc::open only in the
 directory constructor; (R3) the validator's shape: exactly three rejections --
 a NUL byte anywhere (memchr 0), a leading '/', a '/'-delimited segment *equal* to
 the two bytes `..` (segments are cut at each '/' found, the scan restarts right
-after it) -- and Ok only when none applies; index arithmetic discharged;
+after it; or `split('/')` + `any(segment == "..")`, the closures decided by
+evaluating their MIR) -- and Ok only when none applies; index arithmetic discharged;
 (R4) the lookup table: the `.gz` sibling is tried iff auto_gzip and
 should_gzip(request headers); opened and not a directory -> node flagged gzip;
 a directory or NotFound -> the plain path; any other error -> Err; the C strings
